@@ -15,6 +15,7 @@ import (
 	"rtcpverif/core"
 	"rtcpverif/effects"
 	"rtcpverif/num"
+	"rtcpverif/sum"
 )
 
 func init() { register("C08", "other", checkC08) }
@@ -65,7 +66,7 @@ func checkC08(c *Ctx) {
 	r := c.Rep
 	p := c.Prog
 	r.Explain = "The numeric abstract interpreter evaluates every Marshal method of the package — the 15 packet types and, as roots of their own with an unconstrained receiver, every helper encoder (ReceptionReport, SDES chunk/item, TWCC chunks and deltas, CCFB blocks, Header) — on all field values and list lengths. Inside a packet-level root the (effect-free) helper encoders are opaque: their result and error are unconstrained, so the packet-level rules only rely on how the error is handled. C08-NARROW: every fixed-width operation that can lose information — a conversion to a narrower integer type, fixed-width arithmetic that can wrap, a low-bit mask x&(2^k-1) — is an obligation per calling context (call-site sensitive call string): the operand must be entailed to fit at the operation, or be a byte extraction whose dropped bits are emitted by a sibling conversion of the same value (x>>8k family), or its pre-operation value (kept in a ghost that is re-assigned at every execution and starts at 0) must be entailed to fit at every return of the root whose error is nil. C08-ERR: in every function of the universe, at every return whose own error result is nil, the error result of every call made by that function is entailed to be nil (no dropped error); error results read as 'nil if the call has not executed yet'. Together: a nil error from a packet's Marshal implies a nil error from every helper it called, and a nil error from any encoder implies that none of its narrowing operations lost information."
-	r.RuleText = "C08-NARROW (per instruction and call string), C08-ERR (per call returning an error), C08-LIMIT (a value exactly at a wire limit is not rejected on every path), C08-ROOT anchors. Undecided = failure. Frozen tables: signed wire units (c08SignedWire), index arithmetic confirmed by reading (c08Triaged: 2 entries keyed by root and function, an unused entry is reported as information)."
+	r.RuleText = "C08-NARROW (per instruction and call string), C08-ERR (per call returning an error), C08-LIMIT (a value exactly at a wire limit is not rejected on every path), C08-CLASS (RecvDelta.Marshal returns exactly the wire size of its Type class at every nil-error return, and no nil error for a Type without a wire form), C08-ROOT anchors. Undecided = failure. Frozen tables: signed wire units (c08SignedWire), index arithmetic confirmed by reading (c08Triaged: 2 entries keyed by root and function, an unused entry is reported as information)."
 	r.Trusted = []string{"go/ssa, VTA call graph", "numeric engine checker/num (exact fixed-width semantics with wrap atoms)", "effects analysis (purity of the opaque helper encoders, determinism of the size functions)", "models of encoding/binary, copy, append, math"}
 	r.Assume = []string{
 		fmt.Sprintf("size domain: the encoding fits one datagram (MarshalSize(), wireSize() <= %d bytes) and the arithmetic of the size computations (functions reachable from a MarshalSize method) does not wrap; a wrapped size makes the copies into the buffer panic, which is not a silent success", c05MaxBytes),
@@ -228,6 +229,7 @@ func checkC08(c *Ctx) {
 	}
 	r.Infof("%d narrowing sites lie in the size computations (MarshalSize universe) and are covered by the size-domain assumption", nAssumed)
 	c08Limits(c, sizeFns, isMS, wsFn)
+	c08DeltaClasses(c, an)
 	sort.Strings(errOrder)
 	for _, k := range errOrder {
 		o := errObls[k]
@@ -810,4 +812,53 @@ func c08Limits(c *Ctx, sizeFns, isMS map[*ssa.Function]bool, wsFn *ssa.Function)
 			fmt.Sprintf("with %s every one of the %d returns carries a non-nil error: the value at the limit is rejected", lt.what, out[i].nret))
 	}
 	r.Floor("C08-LIMIT", 12)
+}
+
+// c08DeltaWire: octets a receive delta occupies on the wire per RecvDelta.Type class
+// (draft-holmer-rmcat-transport-wide-cc-extensions-01 section 3.1.5: small delta one octet, large delta two); every
+// other Type has no wire form and must be an error.
+var c08DeltaWire = map[int64]int64{1: 1, 2: 2}
+
+// c08DeltaClasses (rule C08-CLASS): RecvDelta.Marshal evaluated by the symbolic-sum engine with
+// RecvDelta.Type fixed to each class: every nil-error return yields exactly the wire size of the class,
+// and a Type without a wire form has no nil-error return. A small delta that does not fit one octet
+// and is quietly widened to two octets (while the packet encoder reserves one) is the silent
+// truncation this rules out; the ranges themselves are C08-NARROW's obligations on the conversions.
+func c08DeltaClasses(c *Ctx, an *effects.Analysis) {
+	r, p := c.Rep, c.Prog
+	enc := p.Func("RecvDelta.Marshal")
+	if enc == nil {
+		r.Fatalf("unresolved anchor: RecvDelta.Marshal")
+		return
+	}
+	pos := p.Pos(enc.Pos())
+	for _, k := range []int64{0, 1, 2, 3} {
+		r.Anchor("C08-CLASS", fmt.Sprintf("RecvDelta.Type=%d", k))
+		key := fmt.Sprintf("RecvDelta.Marshal/Type=%d/octets-of-the-class", k)
+		se := newSumEngine(c, an)
+		se.AssumeField = map[string]int64{"RecvDelta.Type": k}
+		var er *sum.FuncResult
+		if msg := guarded(func() { er = se.EvalRoot(enc) }); msg != "" {
+			r.Unk("C08-CLASS", key, pos, "analysis panic: "+msg)
+			continue
+		}
+		want, has := c08DeltaWire[k]
+		if !has {
+			r.Check(er.NRetNil == 0, "C08-CLASS", key, pos, "no nil-error return: a delta of this type is rejected",
+				fmt.Sprintf("%d nil-error return(s) for a Type that has no wire form", er.NRetNil))
+			continue
+		}
+		if er.NRetNil == 0 {
+			r.Bad("C08-CLASS", key, pos, "every return carries an error: deltas of this class cannot be encoded at all")
+			continue
+		}
+		l, ok := er.ResultLin(0)
+		if !ok || !l.IsConst() {
+			r.Bad("C08-CLASS", key, pos, fmt.Sprintf("the number of octets returned with a nil error is not the constant %d: an out-of-range delta of this class is encoded in another size instead of being rejected", want))
+			continue
+		}
+		r.Check(l.C == want, "C08-CLASS", key, pos, fmt.Sprintf("every nil-error return yields %d octet(s)", want),
+			fmt.Sprintf("nil-error returns yield %d octet(s), the wire form of this class has %d", l.C, want))
+	}
+	r.Floor("C08-CLASS", 4)
 }
